@@ -68,7 +68,16 @@ func buildProfile(c *graphCase) *profile.Profile {
 			break
 		}
 	}
-	return gp.Build().Copy()
+	p := gp.Build().Copy()
+	// pprof blanks the file name of a mapping without build id when the name parses as an absolute URL
+	// (that is how it undoes the "source URL as mapping file" convention); generated names such as
+	// "ns::f" look like one. Give those mappings a build id so that the convention is not in play.
+	for _, m := range p.Mapping {
+		if u, err := url.Parse(m.File); m.BuildID == "" && err == nil && u.IsAbs() {
+			m.BuildID = "b1d"
+		}
+	}
+	return p
 }
 
 var cgSuffix = regexp.MustCompile(` \[\d+/\d+\]$`)
@@ -185,15 +194,17 @@ func check(c *graphCase, o *vk.Obs) []string {
 			if en.Flat.V == 0 && en.Cum.V == 0 {
 				continue
 			}
+			if en.F.Name == "" && en.F.File == "" && en.F.Addr == 0 && en.F.Line == 0 && en.Flat.Val() == 0 {
+				continue // prints as an all-empty zero-cost line, which the reader below skips as well
+			}
 			oneLine := strings.NewReplacer("\n", " ", "\r", " ")
 			want = append(want, fmt.Sprintf("%q %q @%x:%d =%d", oneLine.Replace(en.F.Name), oneLine.Replace(en.F.File), en.F.Addr, en.F.Line, en.Flat.Val()))
 			addrOf[fmt.Sprintf("%q@%x:%d", oneLine.Replace(en.F.Name), en.F.Addr, en.F.Line)] = true
 		}
 		for _, r := range cg.Records {
-			if r.Fn == "" && r.File == "" && r.Cost == 0 && r.Addr == 0 && len(r.Calls) == 0 {
-				continue
+			if !(r.Fn == "" && r.File == "" && r.Cost == 0 && r.Addr == 0 && r.Line == 0) {
+				got = append(got, fmt.Sprintf("%q %q @%x:%d =%d", r.Fn, r.File, r.Addr, r.Line, r.Cost))
 			}
-			got = append(got, fmt.Sprintf("%q %q @%x:%d =%d", r.Fn, r.File, r.Addr, r.Line, r.Cost))
 			for _, cl := range r.Calls {
 				fn := cgSuffix.ReplaceAllString(cl.Fn, "")
 				if !addrOf[fmt.Sprintf("%q@%x:%d", fn, cl.Addr, cl.Line)] {
